@@ -225,7 +225,146 @@ S_INIT = Contract(id="wsgi.StreamingResponse.__init__", file="baize/wsgi/respons
                   inline=True, props=["C20"], notes="3-line constructor, executed inline")
 
 
+# --------------------------------------------------------------------------- ASGI: CachedStream, from_app.send, render_stream
+AM = "baize/asgi/middleware.py"
+from pyvc import stubs as _stubs
+SPOOL_T = ObjT("SpooledTemporaryFile", content=Bytes, pos=Int)
+CS_T = ObjT(AM + ":CachedStream", _buffer=SPOOL_T, _pushed_eof=Bool)
+
+
+def spool_write(ev, recv, args, kwargs, node):
+    """SpooledTemporaryFile.write(b) at the end of the file: the file content grows by b (A-spool-1)"""
+    USED.add("A-spool-1")
+    o = ev.st.obj(recv)
+    ev.st.oblige("%s/spool.write_at_end" % ev.frame.root().contract.id, o.fields["pos"].t == z3.Length(o.fields["content"].t),
+                 note="writes only happen while the position is at the end (no write after the rewind)", line=getattr(node, "lineno", 0))
+    o.fields["content"] = VStr(z3.Concat(o.fields["content"].t, args[0].t), True)
+    o.fields["pos"] = VInt(z3.Length(o.fields["content"].t))
+    return VInt(z3.Length(args[0].t))
+
+
+def spool_seek(ev, recv, args, kwargs, node):
+    USED.add("A-spool-1")
+    o = ev.st.obj(recv)
+    o.fields["pos"] = args[0]
+    return args[0]
+
+
+def spool_read(ev, recv, args, kwargs, node):
+    """read(n): the next at most n bytes (A-spool-1: the file returns what was written)"""
+    USED.add("A-spool-1")
+    o = ev.st.obj(recv)
+    c, p, n = o.fields["content"].t, o.fields["pos"].t, args[0].t
+    r = z3.SubString(c, p, n)
+    o.fields["pos"] = VInt(p + z3.Length(r))
+    return VStr(r, True)
+
+
+SPOOL_STUBS = {("SpooledTemporaryFile", "write"): spool_write, ("SpooledTemporaryFile", "seek"): spool_seek,
+               ("SpooledTemporaryFile", "read"): spool_read}
+CS_REQ = ["0 <= self._buffer.pos and self._buffer.pos <= len(self._buffer.content)"]
+
+CS_PUSH = Contract(
+    id="asgi.CachedStream.push", file=AM, qualname="CachedStream.push", props=["C20"],
+    params={"self": CS_T, "chunk": Bytes}, stub_methods=SPOOL_STUBS, stubs={"run_in_threadpool": _stubs.run_in_threadpool},
+    requires=CS_REQ + ["implies(not self._pushed_eof, self._buffer.pos == len(self._buffer.content))"],
+    modifies=["self._buffer.content", "self._buffer.pos"],
+    raises={"RuntimeError": "self._pushed_eof"},
+    raises_ensures={"RuntimeError": {"ensures": ["self._buffer.content == old(self._buffer.content)"]}},
+    ensures={"appended": "self._buffer.content == old(self._buffer.content) + chunk",
+             "at_end": "self._buffer.pos == len(self._buffer.content)", "open": "not self._pushed_eof"},
+    assumptions=["A-spool-1", "A-conc-1"])
+
+CS_EOF = Contract(
+    id="asgi.CachedStream.push_eof", file=AM, qualname="CachedStream.push_eof", props=["C20"],
+    params={"self": CS_T}, stub_methods=SPOOL_STUBS, requires=CS_REQ, stubs={"run_in_threadpool": _stubs.run_in_threadpool},
+    modifies=["self._buffer.pos", "self._pushed_eof"], raises={},
+    ensures={"rewound": "self._buffer.pos == 0", "closed": "self._pushed_eof",
+             "content_kept": "self._buffer.content == old(self._buffer.content)"},
+    assumptions=["A-spool-1", "A-conc-1"])
+
+CS_NEXT = Contract(
+    id="asgi.CachedStream.__anext__", file=AM, qualname="CachedStream.__anext__", props=["C20"],
+    params={"self": CS_T}, returns=Bytes, stub_methods=SPOOL_STUBS, requires=CS_REQ, stubs={"run_in_threadpool": _stubs.run_in_threadpool},
+    modifies=["self._buffer.pos"],
+    raises={"StopAsyncIteration": "self._buffer.pos >= len(self._buffer.content)"},
+    raises_ensures={"StopAsyncIteration": {"ensures": ["self._buffer.pos == old(self._buffer.pos)"]}},
+    ensures={
+        # the next block: at most 64 KiB, never empty, read position advanced by exactly what is returned
+        "block": "result == old(self._buffer.content[self._buffer.pos:self._buffer.pos + 65536]) and result != b''",
+        "advanced": "self._buffer.pos == old(self._buffer.pos) + len(result) and self._buffer.pos <= len(self._buffer.content)",
+        "more_was_there": "old(self._buffer.pos) < len(self._buffer.content)",
+    },
+    assumptions=["A-spool-1", "A-conc-1"])
+
+
+def rs_yield(ev, v, node):
+    st = ev.st
+    st.ghost["outb"] = VStr(z3.Concat(st.ghost["outb"].t, v.t), True)
+
+
+A_RENDER = Contract(
+    id="asgi.NextResponse.render_stream", file=AM, qualname="NextResponse.render_stream", props=["C20"], generator=True,
+    params={"self": ObjT(AM + ":NextResponse", iterable=CS_T)}, ghosts={"outb": Bytes},
+    requires=["outb == b''", "0 <= self.iterable._buffer.pos and self.iterable._buffer.pos <= len(self.iterable._buffer.content)"],
+    modifies=["self.iterable._buffer.pos"], ghost_modifies=["outb"], on_yield=rs_yield, yield_mods=("outb",),
+    raises={},
+    invariants={1: [
+        "old(self.iterable._buffer.pos) <= self.iterable._buffer.pos and self.iterable._buffer.pos <= len(self.iterable._buffer.content)",
+        "outb == self.iterable._buffer.content[old(self.iterable._buffer.pos):self.iterable._buffer.pos]",
+    ]},
+    ensures={
+        # re-emission: exactly the cached bytes from the read position to the end, in order
+        "relays_cached_bytes": "outb == self.iterable._buffer.content[old(self.iterable._buffer.pos):]",
+    },
+    canaries={"never_emits": "outb == b''"},
+    assumptions=["A-spool-1"])
+
+MSG_T = Dict(type=Str, status=Maybe_(Int), headers=Maybe_(List(Tup(Bytes, Bytes))), body=Maybe_(Bytes), more_body=Maybe_(Bool))
+
+A_SEND = Contract(
+    id="asgi.NextResponse.from_app.send", file=AM, qualname="NextResponse.from_app.<locals>.send", props=["C20"],
+    params={"message": MSG_T, "status_code": Int, "headers": ObjT(HD, _dict=Map(Str, Str)), "body": CS_T},
+    requires=["0 <= body._buffer.pos and body._buffer.pos <= len(body._buffer.content)",
+              "implies(not body._pushed_eof, body._buffer.pos == len(body._buffer.content))",
+              # ASGI: a start message carries its status; header names and values are byte strings (A-asgi-app)
+              "implies(message['type'] == 'http.response.start', has(message, 'status'))"],
+    defs={"mh()": "message['headers']",
+          "unique_at(i)": "forall(j, 0, len(mh()), implies(j != i, lower(mh()[j][0].decode('latin-1')) != lower(mh()[i][0].decode('latin-1'))))"},
+    modifies=["body._buffer.content", "body._buffer.pos", "body._pushed_eof"], frame_check=False,
+    post_vars=("status_code", "headers"), stubs={"run_in_threadpool": _stubs.run_in_threadpool},
+    raises={"RuntimeError": "message['type'] == 'http.response.body' and body._pushed_eof"},
+    ensures={
+        "start.status": "implies(message['type'] == 'http.response.start', status_code == message['status'])",
+        "start.header_names": "implies(message['type'] == 'http.response.start' and has(message, 'headers'), "
+                              "forall((k, Str), has(headers._dict, k) == exists(i, 0, len(mh()), lower(mh()[i][0].decode('latin-1')) == k)))",
+        "start.header_values": "implies(message['type'] == 'http.response.start' and has(message, 'headers'), "
+                               "forall(i, 0, len(mh()), implies(unique_at(i), "
+                               "headers._dict[lower(mh()[i][0].decode('latin-1'))] == mh()[i][1].decode('latin-1'))))",
+        "start.keeps_body": "implies(message['type'] == 'http.response.start', body._buffer.content == old(body._buffer.content) "
+                            "and body._pushed_eof == old(body._pushed_eof))",
+        "body.appended": "implies(message['type'] == 'http.response.body', body._buffer.content == old(body._buffer.content) + "
+                         "(message['body'] if has(message, 'body') else b''))",
+        "body.eof": "implies(message['type'] == 'http.response.body', body._pushed_eof == "
+                    "(not (has(message, 'more_body') and message['more_body'])))",
+        "body.keeps_head": "implies(message['type'] == 'http.response.body', status_code == old(status_code) and "
+                           "headers._dict == old(headers._dict))",
+        "other.ignored": "implies(message['type'] != 'http.response.start' and message['type'] != 'http.response.body', "
+                         "status_code == old(status_code) and headers._dict == old(headers._dict) and "
+                         "body._buffer.content == old(body._buffer.content) and body._pushed_eof == old(body._pushed_eof))",
+    },
+    canaries={"never_stores": "body._buffer.content == old(body._buffer.content)"},
+    assumptions=["A-spool-1", "A-conc-1", "A-asgi-app"],
+    notes="the closure that captures the inner application's messages: per message, for every message; status_code / headers "
+          "/ body are the enclosing function's variables (given as parameters)",
+)
+
+A_SEND.comp_src_trigger = True
+
+
 def register(reg):
     reg.add(ENSURE_NEXT)
     reg.add(FROM_APP)
     reg.add(S_INIT)
+    for c in (CS_PUSH, CS_EOF, CS_NEXT, A_RENDER, A_SEND):
+        reg.add(c)
